@@ -47,7 +47,7 @@ def run_tlc(module, cfg=None, env=None, workers=None, timeout=1800, xmx="12g", s
         cfgpath = os.path.join(meta, "derived.cfg")
         open(cfgpath, "w").write(txt)
     w = str(workers or NCPU)
-    cmd = ["java", "-XX:+UseParallelGC", "-Xmx" + xmx, "-Xss64m"]
+    cmd = ["java", "-XX:+UseParallelGC", "-Xmx" + xmx, "-Xss256m"]
     if dfs:
         cmd.append("-Dtlc2.tool.queue.IStateQueue=StateDeque")
     cmd += ["-cp", JAR, "tlc2.TLC", "-workers", w, "-metadir", meta, "-config", cfgpath, "-noGenerateSpecTE"]
